@@ -804,18 +804,8 @@ func soleStaticCaller(fn *ssa.Function) ssa.Instruction {
 	// method names cannot satisfy interfaces of other packages, and same-package
 	// interfaces are covered by the address-taken scan below only for values;
 	// stay conservative: require no interface in the package to have the method.
-	if sig := fn.Signature; sig.Recv() != nil {
-		for _, m := range fn.Pkg.Members {
-			if t, ok := m.(*ssa.Type); ok {
-				if it, ok := t.Type().Underlying().(*types.Interface); ok {
-					for i := 0; i < it.NumMethods(); i++ {
-						if it.Method(i).Name() == fn.Name() {
-							return nil
-						}
-					}
-				}
-			}
-		}
+	if methodOfPkgInterface(fn) {
+		return nil
 	}
 	var sites []ssa.Instruction
 	bad := false
@@ -1063,6 +1053,25 @@ func predicateAlts(cl *ssa.Call, ridx int, val bool, depth int) [][]BoolFact {
 	return alts
 }
 
+// methodOfPkgInterface: fn is a method and some interface type declared in its package has a method of that name.
+func methodOfPkgInterface(fn *ssa.Function) bool {
+	if fn == nil || fn.Pkg == nil || fn.Signature.Recv() == nil {
+		return false
+	}
+	for _, m := range fn.Pkg.Members {
+		if t, ok := m.(*ssa.Type); ok {
+			if it, ok := t.Type().Underlying().(*types.Interface); ok {
+				for i := 0; i < it.NumMethods(); i++ {
+					if it.Method(i).Name() == fn.Name() {
+						return true
+					}
+				}
+			}
+		}
+	}
+	return false
+}
+
 var pkgCallersMemo = map[*ssa.Function][]ssa.Instruction{}
 
 // pkgCallers returns the call sites (plain calls) of an unexported, never-address-taken function or method within its
@@ -1079,6 +1088,9 @@ func pkgCallers(fn *ssa.Function) []ssa.Instruction {
 	bad := false
 	if _, used := boundCallSites(fn); used {
 		return nil // its method value is taken
+	}
+	if methodOfPkgInterface(fn) {
+		return nil // may be called through an interface of its package
 	}
 	// the functions of the package, and the instantiations of its generic functions (they have no package of their own)
 	scan := PkgFuncs(fn.Pkg)
